@@ -16,7 +16,9 @@ Record wstate := mkW {
   l_pending : N;  (* sends to evtCh still to do in the loop's current turn *)
   p_pending : N   (* sends to srCh still to do in the periodic server's current tick *) }.
 
-Definition cap_evt : N := EVENT_CHANNEL_LEN.
+(* the capacity the event channel had before it became an unbounded queue (fix "periodic server: unbounded event queue"):
+   this file is kept as the model of the OLD code, in which the wedge below is reachable *)
+Definition cap_evt : N := 512.
 Definition cap_sr : N := REPORT_CHANNEL_LEN.
 
 Inductive wact :=
